@@ -56,7 +56,7 @@ CHECKS = {
                 text='Design: TLC checks AlwaysLoadable for 3 appliers and 2 failed appends and TamperEvident for journals of 1-5 entries. Code: every order of 2-3 concurrent FileState::apply calls is forced through the guarded schedule point, with every set of failing appends (guarded fault switch); the real loader must then load consecutive indices containing every acknowledged command, also after one more command. Tamper: every byte x {bit flips, 0x00, 0xFF}, every truncation, every entry removal/duplication/swap of real plain and encrypted journals; the loader must answer an error, or a prefix only when a whole suffix was lost; never a different history, never a panic.',
                 ref='3.6, 7/C11'),
     'C13': dict(engine='wirelens', technique='TLA+ spec IggyWire (garbage-frame isolation) + TLC-validated SDK-encode/server-decode round trips of every command type with structure-aware boundary values, garbage frames on raw sockets, and the catalogue lens end to end over TCP and HTTP/JSON',
-                text='Agreement is decided where a specification can decide it: (1) every request type the SDK builds, with seeded boundary values, is decoded by the server\'s own decoder to an equal request with the same validity (TLC judges each recorded round trip); (2) malformed frames on one raw connection while a second connection works: error or closed, state and the other connection untouched; (3) responses and HTTP/JSON: every catalogue scenario (names of 1..255 bytes, by id / by name) over both transports must make the SDK-decoded answers equal the specification relations. Fidelity over ALL values is sampled, not exhaustive. (4) Poll responses: messages with payloads of 1..4096 bytes (boundary lengths), with and without headers of every kind, explicit and server-assigned ids, sent over TCP and HTTP and polled back over both in every window (offset, 1..3) and as a whole, compared with what was sent. Round-trip instances include an empty message inside a non-empty batch (validity must agree).',
+                text='Agreement is decided where a specification can decide it: (1) every request type the SDK builds, with seeded boundary values, is decoded by the server\'s own decoder to an equal request with the same validity (TLC judges each recorded round trip); (2) malformed frames on one raw connection while a second connection works: error or closed, state and the other connection untouched; (3) responses and HTTP/JSON: every catalogue scenario (names of 1..255 bytes, by id / by name) over both transports must make the SDK-decoded answers equal the specification relations. Fidelity over ALL values is sampled, not exhaustive. (4) Poll responses: messages with payloads of 1..4096 bytes (boundary lengths), with and without headers of every kind, explicit and server-assigned ids, sent over TCP, HTTP and QUIC and polled back over all three in every window (offset, 1..3) and as a whole, compared with what was sent; the catalogue scenarios run over TCP, HTTP/JSON and QUIC. Round-trip instances include an empty message inside a non-empty batch (validity must agree).',
                 ref='3.8, 7/C13'),
     'C19': dict(engine='loglens', technique='the data-path and catalogue specifications (IggyLog, IggyCatalogue) with the encryption bit on + TLC trace validation + plaintext scan of every file as an observed variable + restart with a different key',
                 text='Same scenarios as C01-C03/C05 with encryption on: every sweep must still equal the specification (lossless), no payload marker / journalled name may be found in clear in any file after any step, the journal must be replayable after restart with the same key, and after a restart with another key the server must refuse to start or answer errors - never hand out a message. A start with ANOTHER key must fail (the undecryptable journal is reported as an error), must in no case hand out old data, and the following start with the right key must restore catalogue and data exactly. A second lens (wire lens, family crypto) sweeps the shared encryptor over every length 0..600 (lossless, nothing in clear, another key / truncations / bit flips are errors, never panics) and round-trips encrypted messages of boundary lengths over TCP and HTTP.',
